@@ -165,6 +165,13 @@ static void layoutCase(long k, const vh::Args &a) {
             alg.setConstraints(&ccs);
             alg.setUnsatisfiableConstraintInfo(&ux, &uy);
             if (overlap) alg.setAvoidOverlaps(r.coin());
+            // further documented options of the majorization layout: none of them is a licence to drop a constraint
+            bool scaling = r.coin(1, 3), sticky = r.coin(1, 4);
+            std::valarray<double> sx(rs.size()), sy(rs.size());
+            for (size_t i = 0; i < rs.size(); ++i) { sx[i] = rs[i]->getCentreX(); sy[i] = rs[i]->getCentreY(); }
+            if (scaling) alg.setScaling(true);
+            if (sticky) alg.setStickyNodes(r.coin() ? 0.1 : 10.0, sx, sy);
+            printf("cmlopts %d %d\n", (int) scaling, (int) sticky); fflush(stdout);
             exc = runGuarded([&]() { alg.run(); });
         }
         printOut(rs);
